@@ -453,7 +453,7 @@ impl Stage for Decode {
         serde_json::json!({"len": b.len(), "bytes": super::c13::show(&b[..b.len().min(160)]), "mutations": c.muts.iter().map(|m| format!("{m:?}").chars().take(60).collect::<String>()).collect::<Vec<_>>()})
     }
     fn watchdog_secs(&self, tier: Tier) -> u64 {
-        tier.pick(120, 600)
+        tier.pick(600, 1800)
     }
 }
 
